@@ -6,10 +6,16 @@
    inductive predicate jvalue of Proofs/JsonProofs.v: strings with the two-character escapes for quote, backslash, b, f, n, r, t and the uXXXX escapes only,
    and no raw control character, quote or backslash; decimal integers; objects of key : value members; null), for every
    string value whatever its bytes (invalid UTF-8 becomes the replacement character escape), every nesting of composites whose subfield tags are
-   plain text, and every message (C12_string_valid, C12_field_valid, C12_message_valid). The decode round trip is checked
-   by the oracle (json.Valid, key order, UnmarshalJSON into a fresh message, identical re-pack) and by byte-for-byte
-   correspondence of the JSON text (partial). *)
-From Iso Require Import Model.Base Model.Sexp Model.Spec Model.Field Model.Message Model.Json Model.MessageOps Proofs.BaseLemmas Proofs.StateProofs Proofs.JsonProofs.
+   plain text, and every message (C12_string_valid, C12_field_valid, C12_message_valid). The decode round trip, on the
+   level of parsed documents: the emitted text is the rendering of the document of the state (C12_text_is_document,
+   C12_message_text_is_document: strings escaped, integers in decimal, object keys in numeric order), and UnmarshalJSON
+   of that document into a new field / a new message of the same specification gives the state back - the same value
+   for primitives (binary values through their hexadecimal text), the same set subfields with the same contents at
+   every depth for composites, the same MTI, bitmap field, populated set and element contents for messages
+   (C12_field_roundtrip, C12_message_roundtrip). That encoding/json parses the text to that document is Go's library
+   (outside the model): the oracle checks json.Valid, key order, UnmarshalJSON into a fresh message and identical
+   re-pack on the library, and the JSON text is compared byte for byte with the model's. *)
+From Iso Require Import Model.Base Model.Sexp Model.Padding Model.Encoding Model.Prefix Model.Bitmap Model.Spec Model.Field Model.Message Model.Json Model.MessageOps Proofs.BaseLemmas Proofs.StateProofs Proofs.CompositeProofs Proofs.JsonProofs Proofs.JsonRoundtrip.
 
 Theorem C12_total : forall S m, is_ok (snd (m_json S m)) = is_ok (snd (m_pack S m)) /\ fst (m_json S m) = fst (m_pack S m).
 Proof. exact m_json_total. Qed.
@@ -42,3 +48,42 @@ Theorem C12_message_valid : forall S m m' doc, (forall id, In id (m_present (fst
   m_json S m = (m', Ok doc) -> jvalue doc.
 Proof. exact m_json_valid. Qed.
 Print Assumptions C12_message_valid.
+
+(* ---- the decode round trip ---- *)
+Theorem C12_text_is_document : forall st, json_field st = render (doc_of st).
+Proof. exact json_field_renders. Qed.
+Print Assumptions C12_text_is_document.
+
+Theorem C12_message_text_is_document : forall S m0 m txt, m_json S m0 = (m, Ok txt) ->
+  txt = json_object (map (fun kv => (fst kv, render (snd kv))) (mdoc m)).
+Proof. exact m_json_renders. Qed.
+Print Assumptions C12_message_text_is_document.
+
+Theorem C12_field_roundtrip : forall s, nodup_spec s -> forall st, jdom s st ->
+  exists st', json_into s (fresh s) (doc_of st) = (st', Ok tt) /\ equiv s st st'.
+Proof. exact json_doc_roundtrip. Qed.
+Print Assumptions C12_field_roundtrip.
+
+Theorem C12_message_roundtrip : forall S m, mjdom S m ->
+  exists m', m_from_json S (mfresh S) (mdoc m) = (m', Ok tt) /\
+    (forall id, zmem id (m_present m') = zmem id (m_present m)) /\
+    (In 0 (m_present m) -> m_mti m' = m_mti m) /\ (In 1 (m_present m) -> m_bm m' = m_bm m) /\
+    (forall id, In id (m_present m) -> 2 <= id -> exists s x y, zlookup id (ms_fields S) = Some s /\ zlookup id (m_fields m) = Some x /\ zlookup id (m_fields m') = Some y /\ equiv s x y).
+Proof. exact m_json_doc_roundtrip. Qed.
+Print Assumptions C12_message_roundtrip.
+
+(* an instance: a tagged composite holding a numeric and a binary subfield *)
+Definition c12 : fspec :=
+  FComp (PVar PfASCII 2) 99 (CTag {| tg_len := 2; tg_enc := Some EncASCII; tg_pad := PadLeft x30; tg_sort := SortByInt; tg_skip := false; tg_prefunk := None |})
+        [([x31], FPrim {| ps_kind := KNumeric; ps_enc := EncASCII; ps_pref := PVar PfASCII 1; ps_len := 5; ps_pad := PadNone; ps_packer := PkDefault |});
+         ([x32], FPrim {| ps_kind := KBinary; ps_enc := EncBinary; ps_pref := PVar PfASCII 1; ps_len := 5; ps_pad := PadNone; ps_packer := PkDefault |})].
+Definition st12 : fstate := SComp [[x32]; [x31]] [([x31], SNumeric 42); ([x32], SBinary [xab])].
+Example C12_ex : nodup_spec c12 /\ jdom c12 st12 /\ doc_of st12 = JO [([x31], JN 42); ([x32], JS [x41; x42])] /\
+  json_into c12 (fresh c12) (doc_of st12) = (SComp [[x31]; [x32]] [([x31], SNumeric 42); ([x32], SBinary [xab])], Ok tt).
+Proof.
+  split; [|split; [|split; vm_compute; reflexivity]].
+  - cbn [nodup_spec c12]. split; [repeat constructor; cbn; intuition discriminate|]. repeat split.
+  - cbn [jdom c12 st12]. split; [repeat constructor; cbn; intuition discriminate|]. split.
+    + intros t H. apply CompositeLoops.bmem_In in H. cbn [In map fst] in *. destruct H as [<-|[<-|[]]]; split; cbn; tauto.
+    + cbn [blookup bytes_eqb Byte.eqb andb]. split; [|split; [|exact I]]; intros _ x Hx; injection Hx as <-; cbn; [unfold two63; lia|exact I].
+Qed.
